@@ -111,7 +111,7 @@ def switch_edge_facts(cfg, prov, prog, edge):
         else:
             out.append(("variant", inner, nm(edge.val)))
         return out
-    if ty == "bool" or (isinstance(ds, tuple) and (ds[0] in ("call", "un", "phi") or (ds[0] == "bin" and ds[1] in NEG))):
+    if ty == "bool" or (ty is None and isinstance(ds, tuple) and (ds[0] in ("call", "un", "phi") or (ds[0] == "bin" and ds[1] in NEG))):
         if edge.val == "otherwise":
             # targets usually [0] -> otherwise means true
             if targets == [0]:
